@@ -44,9 +44,23 @@ ShapeOK(c) ==
   /\ \A r \in DOMAIN c.rows : Len(c.rows[r]) = c.ncols
   /\ (c.method = "kgf" => Len(c.lo) = c.nrows /\ \A r \in DOMAIN c.lo : Len(c.lo[r]) = c.ncols)
 
+(* a Sobol window that starts at seed 1 shows the first points of the sequence: the net      *)
+(* properties are then demanded of the returned numbers themselves, for every 2^m <= length *)
+RECURSIVE FloorLog2(_)
+FloorLog2(k) == IF k <= 1 THEN 0 ELSE 1 + FloorLog2(k \div 2)
+Column(c, k) == [r \in 1..c.nrows |-> c.rows[r][k]]
+FromFirstPoint(c) == c.method = "sobol" /\ FirstSeed(c) = 1 /\ c.nrows >= 2
+StratifiedObserved(c) ==
+  \A k \in 1..c.ncols : \E H \in {Column(c, k)} : \A m \in 0..FloorLog2(c.nrows) : Stratified(H, m)
+Net2Observed(c) ==
+  c.ncols >= 2 => \E H1 \in {Column(c, 1)} : \E H2 \in {Column(c, 2)} : \A m \in 0..FloorLog2(c.nrows) : Net2(H1, H2, m)
+
 CallClause(c) == IF c.exc # "" THEN "Raised"
                  ELSE IF ~ShapeOK(c) THEN "Shape"
-                 ELSE IF c.offgrid THEN "OnGrid" ELSE ""
+                 ELSE IF c.offgrid THEN "OnGrid"
+                 ELSE IF FromFirstPoint(c) /\ ~StratifiedObserved(c) THEN "Stratified"
+                 ELSE IF FromFirstPoint(c) /\ ~Net2Observed(c) THEN "Net2"
+                 ELSE ""
 
 RowInUnit(c, r) ==
   IF c.method = "sobol" THEN \A k \in DOMAIN c.rows[r] : InUnit(c.rows[r][k])
